@@ -7,4 +7,6 @@ run, replay = enumcheck.simple("C08", LEGS,
     "size budget; leg C08 = OpenMP-free ASan build with 1 thread, leg C08t = real libgomp build with 2,3,16 threads; "
     "non-trivial = sequences of at least 2 residues", "nontrivial_len_ge_2",
     ["a type that does not fit the detected kind is expected to be rejected and is counted, not judged",
-     "thread counts 2,3,16 run on the real libgomp (one schedule each); schedule independence is C02's subject"])
+     "thread counts 2,3,16 run on the real libgomp (one schedule each); schedule independence is C02's subject",
+     "a case that does not return within its limit (300 s quick, 1500 s thorough; clean runs need < 60 s) is re-run alone and, if it "
+     "again does not return, reported as a violation (signature timeout)"], timeout=2400)
